@@ -250,9 +250,10 @@ func (r *replayer) promoBig(c Case, p PromoRule) {
 		return
 	}
 	ma, mb := memberOf(c.Src)
-	if ma == "" || mb == "" || ma == mb {
+	if ma == "" || mb == "" {
 		return
 	}
+	same := ma == mb // `I op I`: one member, both operands take the same extreme value
 	lg := &Log{}
 	// validate the evaluator on the values TLC computed
 	for _, rc := range c.Runs {
@@ -275,6 +276,9 @@ func (r *replayer) promoBig(c Case, p PromoRule) {
 		}
 		for _, a := range extrema(p.A) {
 			for _, b := range extrema(p.B) {
+				if same && !sameGo(a, b) {
+					continue
+				}
 				e := NewEnv(lg)
 				setMember(e, ma, a)
 				setMember(e, mb, b)
